@@ -1,14 +1,16 @@
 #!/bin/sh
 # usage: confirm_bg.sh [-2] ID...   — confirm both variants of each seed in the background, log to /tmp/confirm.log
-# with -2 the second-round seeds (/tmp/seed2-<ID>/{a,b}) are stored as variants c and d
+# with -2 the second-round seeds (/tmp/seed2-<ID>/{a,b}) are stored as variants c and d, with -3 (/tmp/seed3-<ID>) as e and f
 cd /verif
-TAG=""; [ "$1" = "-2" ] && { TAG=2; shift; }
+TAG=""; V1=c; V2=d
+[ "$1" = "-2" ] && { TAG=2; shift; }
+[ "$1" = "-3" ] && { TAG=3; V1=e; V2=f; shift; }
 for p in "$@"; do
   git -C /repo worktree remove --force /tmp/wt$TAG-$p 2>/dev/null
   if [ -z "$TAG" ]; then
     for v in a b; do [ -d /tmp/seed-$p/$v ] && ./confirm_seed.sh $p $v; done
   else
-    [ -d /tmp/seed2-$p/a ] && ./confirm_seed.sh $p a 2 c
-    [ -d /tmp/seed2-$p/b ] && ./confirm_seed.sh $p b 2 d
+    [ -d /tmp/seed$TAG-$p/a ] && ./confirm_seed.sh $p a $TAG $V1
+    [ -d /tmp/seed$TAG-$p/b ] && ./confirm_seed.sh $p b $TAG $V2
   fi
 done >> /tmp/confirm.log 2>&1
